@@ -428,6 +428,10 @@ static ares_status_t process_option(ares_sysconfig_t *sysconfig,
       status = ARES_EFORMERR;
       goto done;
     }
+    /* Saturate instead of wrapping around in the conversion to milliseconds */
+    if (valint > 0xFFFFFFFFU / 1000) {
+      valint = 0xFFFFFFFFU / 1000;
+    }
     sysconfig->timeout_ms = valint * 1000;
   } else if (ares_streq(key, "retry") || ares_streq(key, "attempts")) {
     if (valint == 0) {
